@@ -44,7 +44,13 @@ def _cfg(path, maxn, maxe, eobjs, forget, inv, prop):
 def _sig(kind):
     def f(rj):
         ev = rj.event or {}
-        return {"kind": kind, "action": ev.get("e"), "invariant": rj.invariant or "step"}
+        sig = {"kind": kind, "action": ev.get("e"), "invariant": rj.invariant or "step"}
+        if kind == "tree" and len(rj.prefix) >= 2:           # was the tree rooted before the offending call?
+            try:
+                sig["rooted_before"] = bool(json.loads(rj.prefix[-2]).get("s", {}).get("d"))
+            except Exception:
+                pass
+        return sig
     return f
 
 
@@ -52,11 +58,9 @@ def _module(kind):
     return ("TreeTrace", os.path.join(SPEC, "TreeTrace.cfg")) if kind == "tree" else ("DagTrace", os.path.join(SPEC, "DagTrace.cfg"))
 
 
-def _validate(ck, kind, trace, summary, tag):
-    """Validate one trace file; a driver that died before its summary line is itself a finding
+def _account(ck, kind, trace, summary, tag, n_ev, rej):
+    """Book one validated trace; a driver that died before its summary line is itself a finding
     (crash / hang of a public call) unless the trace already shows the Crash / Hang event."""
-    mod, cfg = _module(kind)
-    n_ev, rej, st = vc.validate_trace(SPEC, mod, cfg, trace)
     ck.events += n_ev
     ck.traces += vc.count_scenarios(trace)
     ck.handle_rejections(rej, _sig(kind), tag=tag)
@@ -66,27 +70,34 @@ def _validate(ck, kind, trace, summary, tag):
     return rej
 
 
+def _validate(ck, kind, trace, summary, tag):
+    mod, cfg = _module(kind)
+    n_ev, rej, st = vc.validate_trace(SPEC, mod, cfg, trace, parallel=2)
+    return _account(ck, kind, trace, summary, tag, n_ev, rej)
+
+
 def _design(ck, quick, wd):
-    # exhaustive design models: every history inside the bound
-    tn, te = (3, 3) if quick else (4, 4)
-    cfg = os.path.join(wd, "tree_design.cfg")
-    _cfg(cfg, tn, te, [1], [], TREE_INV, TREE_PROP)
-    r = vc.model_check(SPEC, "Tree", cfg, coverage=True, timeout=3000, heap="12g")
-    ck.add_model("Tree", r, "MaxN=%d MaxE=%d EObjs={1} Forget={}" % (tn, te))
-    if r.invariant:
-        ck.violation("design model Tree violates %s" % r.invariant, [r.out[-6000:]], tag="model")
-    dn, de = (3, 3) if quick else (4, 4)
-    cfg = os.path.join(wd, "dag_design.cfg")
-    _cfg(cfg, dn, de, [1], [], DAG_INV, DAG_PROP)
-    r = vc.model_check(SPEC, "Dag", cfg, coverage=True, timeout=3000, heap="12g")
-    ck.add_model("Dag", r, "MaxN=%d MaxE=%d EObjs={1} Forget={}" % (dn, de))
-    if r.invariant:
-        ck.violation("design model Dag violates %s" % r.invariant, [r.out[-6000:]], tag="model")
+    """Exhaustive design models: every history inside the bound (constants listed in the evidence)."""
+    if quick:
+        tree = [(3, 2, [1], True), (3, 3, [], False)]
+        dag = [(3, 2, [1], True), (3, 3, [1], False)]
+    else:
+        tree = [(3, 2, [1], True), (3, 3, [1, 2], False), (4, 4, [], False)]
+        dag = [(3, 2, [1], True), (3, 4, [1], False), (4, 4, [], False)]
+    for mod, cfgs, inv, prop in (("Tree", tree, TREE_INV, TREE_PROP), ("Dag", dag, DAG_INV, DAG_PROP)):
+        for n, e, objs, cov in cfgs:
+            cfg = os.path.join(wd, "%s_design_%d_%d_%d.cfg" % (mod, n, e, len(objs)))
+            _cfg(cfg, n, e, objs, [], inv, prop)
+            r = vc.model_check(SPEC, mod, cfg, coverage=cov, timeout=6000, heap="12g")
+            name = "%s/N%dE%dO%d" % (mod, n, e, len(objs))
+            ck.add_model(name, r, "MaxN=%d MaxE=%d EObjs={%s} Forget={}" % (n, e, ",".join(map(str, objs))))
+            if r.invariant:
+                ck.violation("design model %s violates %s" % (name, r.invariant), [r.out[-6000:]], tag="model")
     # negative control: a design that forgets ONE invalidation must be caught by TLC
     caught = []
-    for mod, name, inv, prop, sz in (("Tree", "SetRoot", TREE_INV, TREE_PROP, (3, 2)), ("Dag", "RemoveSon", DAG_INV, DAG_PROP, (3, 2))):
+    for mod, name, inv, prop in (("Tree", "SetRoot", TREE_INV, TREE_PROP), ("Dag", "RemoveSon", DAG_INV, DAG_PROP)):
         cfg = os.path.join(wd, "forget_%s.cfg" % mod)
-        _cfg(cfg, sz[0], sz[1], [1], [name], inv, prop)
+        _cfg(cfg, 3, 2, [1], [name], inv, prop)
         r = vc.tlc(SPEC, mod, cfg, workers=4, timeout=900)
         caught.append("%s/Forget={%s}: %s" % (mod, name, r.invariant))
         if not r.invariant:
@@ -112,13 +123,27 @@ def run(tier, seed):
         ("dag", "digraphs", ["--mode", "digraphs", "--maxn", 4, "--loops", 3 if quick else 4]),
         ("dag", "dhist", ["--mode", "dhist", "--n", 200 if quick else 4000, "--len", 40, "--maxn", 6]),
     ]
+    jobs = []
     for kind, name, args in runs:
         tr = os.path.join(wd, "trace-%s.ndjson" % name)
         s = vc.run_driver(exe, args + flags, tr, timeout=3000)
-        _validate(ck, kind, tr, s, name[:2])
+        ck.extra["scenarios_" + name] = s.get("scenarios", 0)
+        jobs.append((kind, name, tr, s))
+    # validate the traces side by side (each one split into a few single-worker TLC runs)
+    from concurrent.futures import ThreadPoolExecutor
+
+    def one(job):
+        kind, name, tr, s = job
+        mod, cfg = _module(kind)
+        big = os.path.getsize(tr) > 8000000
+        return job, vc.validate_trace(SPEC, mod, cfg, tr, parallel=(8 if big else 3), timeout=6000)
+
+    with ThreadPoolExecutor(max_workers=2 if quick else 3) as ex:
+        results = list(ex.map(one, jobs))
+    for (kind, name, tr, s), (n_ev, rej, st) in results:
+        _account(ck, kind, tr, s, name[:2], n_ev, rej)
         if name in ("hist", "dhist"):
             ck.samples += vc.sample_scenarios(tr, 2, maxlines=10)
-        ck.extra["scenarios_" + name] = s.get("scenarios", 0)
         os.remove(tr)
     # one probe scenario per known finding: does it still reproduce?
     for k in vc.load_findings().get("known", []):
